@@ -3,7 +3,7 @@
 // It runs the real Runner, TasksManager, pip:run and pip:try of /repo on generated submission
 // graphs and records what happened; the Lean monitor m_pipeline judges the traces.
 //
-//	pipeline gen <c14|c16|c16s> <n>   n generated cases on stdout, `genstats …` on stderr (c16s: steered try blocks)
+//	pipeline gen <c14|c16|c16s|c16x> <n>   n generated cases on stdout, `genstats …` on stderr (c16s: steered try blocks, c16x: scope kinds and pip:clear)
 //	pipeline drive               cases on stdin -> per case header, event lines, `end`
 //	pipeline drive -inproc       the same without the supervising parent process
 //	pipeline script              cases on stdin -> the terminal scripts of the top-level tasks (debugging)
@@ -211,12 +211,12 @@ func supervise(cases []*Case) {
 
 func main() {
 	if len(os.Args) < 2 {
-		die(2, "usage: pipeline gen <c14|c16|c16s> <n> | drive [-inproc] | script")
+		die(2, "usage: pipeline gen <c14|c16|c16s|c16x> <n> | drive [-inproc] | script")
 	}
 	switch os.Args[1] {
 	case "gen":
 		if len(os.Args) != 4 {
-			die(2, "usage: pipeline gen <c14|c16|c16s> <n>")
+			die(2, "usage: pipeline gen <c14|c16|c16s|c16x> <n>")
 		}
 		n, err := strconv.Atoi(os.Args[3])
 		if err != nil || n < 0 {
